@@ -83,6 +83,7 @@ var zones = corpus.Zones
 
 func (Prop) Generate(seed uint64, tier string) *core.Plan {
 	r := simrt.NewRNG(seed)
+	corpus.SetTheme(r)
 	w := Workload{}
 	w.FreshProcess = r.Intn(300) == 0
 	if tier == "thorough" {
